@@ -684,6 +684,58 @@ fn fuzz_one(lang: usize, text: &str, alias_set: usize) -> u8 {
     }
 }
 
+/// Deep-nesting forms whose parsing time stays about linear in the depth:
+/// (language, repeated prefix, core, repeated suffix).  The revset parser is exponential in
+/// anything nested inside `primary` (parentheses, function arguments: DESIGN O1), so for revset
+/// only prefix / postfix operator chains and pattern chains are used.
+const DEEP_FORMS: &[(usize, &str, &str, &str)] = &[
+    (1, "(", "a", ")"),
+    (1, "~", "a", ""),
+    (1, "f(", "a", ")"),
+    (1, "x:", "a", ""),
+    (2, "(", "a", ")"),
+    (2, "-(", "a", ")"),
+    (2, "f(", "a", ")"),
+    (2, "!", "a", ""),
+    (2, "x.m(", "a", ")"),
+    (0, "~", "a", ""),
+    (0, "", "a", "-"),
+    (0, "x:", "a", ""),
+];
+const DEEP_DEPTHS: &[usize] = &[50, 300, 1000, 3000, 10000, 50000];
+
+fn deep_text(form: usize, depth: usize) -> String {
+    let (_, pre, core, suf) = DEEP_FORMS[form];
+    format!("{}{}{}", pre.repeat(depth), core, suf.repeat(depth))
+}
+
+/// Parse (and expand with an empty alias map / resolve) one deeply nested input: 0 Ok, 1 Err.
+fn deep_one(lang: usize, text: &str) -> u8 {
+    match lang {
+        0 => {
+            let map = revset::RevsetAliasesMap::new();
+            match revset::parse_program(text) {
+                Err(_) => 1,
+                Ok(node) => match dsl_util::expand_aliases(node, &map) {
+                    Ok(_) => 0,
+                    Err(_) => 1,
+                },
+            }
+        }
+        1 => {
+            let map = fileset::FilesetAliasesMap::new();
+            let conv = RepoPathUiConverter::Fs { cwd: PathBuf::from("/repo/sub"), base: PathBuf::from("/repo") };
+            let ctx = fileset::FilesetParseContext { aliases_map: &map, path_converter: &conv };
+            let mut diag = fileset::FilesetDiagnostics::new();
+            if fileset::parse(&mut diag, text, &ctx).is_ok() { 0 } else { 1 }
+        }
+        _ => {
+            let map = tpp::TemplateAliasesMap::new();
+            if tpp::parse(text, &map).is_ok() { 0 } else { 1 }
+        }
+    }
+}
+
 /// One alias case (generation + real parse + real expansion), as the fields the parent emits.
 struct AliasCase {
     term: String,
@@ -747,7 +799,7 @@ fn alias_case(i: usize, mut rng: Rng) -> AliasCase {
 /// every item ("S k") before it runs it and reporting its result ("R k payload"), in a thread
 /// with a fixed 8 MiB stack.  `alias` selects the alias stream (lines "index<TAB>rng state"),
 /// otherwise the fuzz stream (lines "lang<TAB>alias set<TAB>hex text").
-fn child_main(path: &str, alias: bool) {
+fn child_main(path: &str, mode: u8) {
     std::panic::set_hook(Box::new(|_| {}));
     let inputs: Vec<String> = std::fs::read_to_string(path).unwrap().lines().map(|l| l.to_string()).collect();
     let start: usize = std::env::var("JJV_C36_START").ok().and_then(|s| s.parse().ok()).unwrap_or(0);
@@ -766,7 +818,19 @@ fn child_main(path: &str, alias: bool) {
                     std::process::abort();
                 }
                 let mut parts = line.split('\t');
-                let payload = if alias {
+                let payload = if mode == 2 {
+                    let form: usize = parts.next().unwrap().parse().unwrap();
+                    let depth: usize = parts.next().unwrap().parse().unwrap();
+                    let text = deep_text(form, depth);
+                    let lang = DEEP_FORMS[form].0;
+                    let t0 = std::time::Instant::now();
+                    let r = std::panic::catch_unwind(|| deep_one(lang, &text));
+                    let ms = t0.elapsed().as_millis();
+                    match r {
+                        Ok(c) => format!("{c} {ms}"),
+                        Err(_) => format!("2 {ms}"),
+                    }
+                } else if mode == 1 {
                     let i: usize = parts.next().unwrap().parse().unwrap();
                     let state: u64 = parts.next().unwrap().parse().unwrap();
                     let c = alias_case(i, Rng(state));
@@ -792,7 +856,9 @@ fn child_main(path: &str, alias: bool) {
 
 enum Item {
     Done(String),
-    Crash,
+    /// the child died while working on the item; `true` = Rust's stack-overflow handler fired
+    /// ("has overflowed its stack" on stderr) and the process was killed by SIGABRT / SIGSEGV
+    Crash(bool),
     Timeout,
 }
 
@@ -803,11 +869,13 @@ fn run_children(env_key: &str, path: &std::path::Path, n: usize, watchdog_secs: 
     let mut start = 0;
     let exe = std::env::current_exe().unwrap();
     while start < n {
+        let err_path = path.with_extension("stderr");
+        let err_file = std::fs::File::create(&err_path).unwrap();
         let mut child = Command::new(&exe)
             .env(env_key, path)
             .env("JJV_C36_START", start.to_string())
             .stdout(Stdio::piped())
-            .stderr(Stdio::null())
+            .stderr(Stdio::from(err_file))
             .spawn()
             .unwrap();
         let stdout = child.stdout.take().unwrap();
@@ -820,6 +888,7 @@ fn run_children(env_key: &str, path: &std::path::Path, n: usize, watchdog_secs: 
             }
         });
         let mut current: Option<usize> = None;
+        let mut crashed: Option<usize> = None;
         let mut next_start = n;
         loop {
             match rx.recv_timeout(Duration::from_secs(watchdog_secs)) {
@@ -848,26 +917,33 @@ fn run_children(env_key: &str, path: &std::path::Path, n: usize, watchdog_secs: 
                 Err(mpsc::RecvTimeoutError::Disconnected) => {
                     // child ended: normally, or it crashed in the middle of item `current`
                     if let Some(k) = current {
-                        results[k] = Some(Item::Crash);
+                        crashed = Some(k);
                         next_start = k + 1;
                     }
                     break;
                 }
             }
         }
-        let _ = child.wait();
+        let status = child.wait().ok();
         let _ = reader.join();
+        if let Some(k) = crashed {
+            use std::os::unix::process::ExitStatusExt as _;
+            let sig = status.and_then(|s| s.signal());
+            let msg = std::fs::read_to_string(&err_path).unwrap_or_default();
+            let overflow = matches!(sig, Some(6) | Some(11)) && msg.contains("has overflowed its stack");
+            results[k] = Some(Item::Crash(overflow));
+        }
         if next_start == n {
             // a child that died before announcing an item leaves it unprocessed: count the first
             // such item as a crash and go on after it
             if let Some(k) = results.iter().position(|r| r.is_none()) {
-                results[k] = Some(Item::Crash);
+                results[k] = Some(Item::Crash(false));
                 next_start = k + 1;
             }
         }
         start = next_start;
     }
-    results.into_iter().map(|r| r.unwrap_or(Item::Crash)).collect()
+    results.into_iter().map(|r| r.unwrap_or(Item::Crash(false))).collect()
 }
 
 /// Runs all fuzz inputs in child processes; returns the outcome code per input.
@@ -882,7 +958,7 @@ fn run_fuzz(inputs: &[(usize, usize, String)], scratch: &std::path::Path) -> Vec
         .into_iter()
         .map(|r| match r {
             Item::Done(p) => p.trim().parse().unwrap_or(3),
-            Item::Crash => 3,
+            Item::Crash(_) => 3,
             Item::Timeout => 4,
         })
         .collect()
@@ -890,11 +966,39 @@ fn run_fuzz(inputs: &[(usize, usize, String)], scratch: &std::path::Path) -> Vec
 
 fn main() {
     if let Ok(path) = std::env::var("JJV_C36_CHILD") {
-        child_main(&path, false);
+        child_main(&path, 0);
         return;
     }
     if let Ok(path) = std::env::var("JJV_C36_ALIAS") {
-        child_main(&path, true);
+        child_main(&path, 1);
+        return;
+    }
+    if let Ok(path) = std::env::var("JJV_C36_DEEP") {
+        child_main(&path, 2);
+        return;
+    }
+    if let Ok(dir) = std::env::var("JJV_C36_PROBE") {
+        // manual probe: every deep form at every depth, with timing
+        let path = PathBuf::from(&dir).join("deep_probe.tsv");
+        std::fs::create_dir_all(&dir).unwrap();
+        let mut jobs = vec![];
+        let mut f = std::fs::File::create(&path).unwrap();
+        for form in 0..DEEP_FORMS.len() {
+            for d in DEEP_DEPTHS {
+                writeln!(f, "{form}\t{d}").unwrap();
+                jobs.push((form, *d));
+            }
+        }
+        drop(f);
+        let items = run_children("JJV_C36_DEEP", &path, jobs.len(), 120);
+        for ((form, d), it) in jobs.iter().zip(items) {
+            let r = match it {
+                Item::Done(p) => p,
+                Item::Crash(o) => format!("CRASH overflow={o}"),
+                Item::Timeout => "TIMEOUT".to_string(),
+            };
+            println!("{} {:?} depth {} -> {}", LANGS[DEEP_FORMS[*form].0], DEEP_FORMS[*form], d, r);
+        }
         return;
     }
     jjv::run("C36", "C36", |ctx| {
@@ -904,8 +1008,17 @@ fn main() {
         let mut fuzz_inputs: Vec<(usize, usize, String)> = vec![];
         let mut fuzz_index: Vec<usize> = vec![];
         let mut alias_index: Vec<usize> = vec![];
+        let mut deep_index: Vec<usize> = vec![];
+        let mut deep_jobs: Vec<(usize, usize)> = vec![];
         for i in ctx.indices() {
-            if i % 5 >= 3 {
+            if i % 50 == 49 {
+                // deep-nesting stream (2% of the cases): one linear-time form at one depth
+                let mut rng = ctx.rng(i);
+                let form = rng.usize(DEEP_FORMS.len());
+                let depth = *rng.pick(DEEP_DEPTHS);
+                deep_jobs.push((form, depth));
+                deep_index.push(i);
+            } else if i % 5 >= 3 {
                 let mut rng = ctx.rng(i);
                 let lang = rng.below(3) as usize;
                 for _ in 0..FUZZ_BATCH {
@@ -962,6 +1075,36 @@ fn main() {
         ctx.note("fuzzing part: seeded character soups with hostile snippets, mutated valid expressions, nesting \
                   capped at 8, length capped at 200 bytes, 4 fixed alias sets incl. recursive and ill-formed ones; \
                   child process, catch_unwind, 8 MiB stack, 20 s watchdog per input");
+        // ---- deep-nesting stream: child process, fixed 8 MiB stack, 120 s watchdog
+        let deep_path = scratch.join("deep_jobs.tsv");
+        {
+            let mut f = std::fs::File::create(&deep_path).unwrap();
+            for (form, depth) in &deep_jobs {
+                writeln!(f, "{form}\t{depth}").unwrap();
+            }
+        }
+        let deep_items = run_children("JJV_C36_DEEP", &deep_path, deep_jobs.len(), 120);
+        let mut deep_results: HashMap<usize, (usize, usize, u8)> = HashMap::new();
+        for ((i, (form, depth)), item) in deep_index.iter().zip(&deep_jobs).zip(deep_items) {
+            let code: u8 = match item {
+                Item::Done(p) => p.split(' ').next().and_then(|c| c.parse().ok()).unwrap_or(3),
+                Item::Crash(true) => 5,
+                Item::Crash(false) => 3,
+                Item::Timeout => 4,
+            };
+            if code >= 2 {
+                let (lang, pre, core, suf) = DEEP_FORMS[*form];
+                ctx.note(format!(
+                    "deep case {i} ({}): {:?}*{depth} {:?} {:?}*{depth} -> outcome {code}",
+                    LANGS[lang], pre, core, suf
+                ));
+                if code != 5 || *depth < 500 {
+                    ctx.panicked();
+                }
+            }
+            deep_results.insert(*i, (*form, *depth, code));
+        }
+        ctx.note("deep-nesting part: linear-time forms (fileset/template parenthesis, call and operator towers,                   pattern chains; revset only operator and pattern chains because parenthesis / argument nesting                   is exponential, O1) at depths 50..50000; child process, 8 MiB stack, 120 s watchdog");
         // ---- alias stream: also in a child process (a missing recursion check would overflow the
         // stack, which no catch_unwind can turn into a value)
         let alias_path = scratch.join("alias_jobs.tsv");
@@ -975,6 +1118,19 @@ fn main() {
         let mut alias_results: HashMap<usize, Item> = alias_index.iter().copied().zip(alias_items).collect();
         // ---- emission, in index order
         for i in ctx.indices() {
+            if let Some((form, depth, o)) = deep_results.get(&i) {
+                let (lang, pre, core, suf) = DEEP_FORMS[*form];
+                let term = format!(
+                    "(CDeep {lang} {} {} {} {depth} {o})",
+                    jjv::coq::bytes(pre.as_bytes()),
+                    jjv::coq::bytes(core.as_bytes()),
+                    jjv::coq::bytes(suf.as_bytes())
+                );
+                let out = ["ok", "err", "PANIC", "CRASH", "TIMEOUT", "stack-overflow"][(*o).min(5) as usize];
+                ctx.count(&format!("deep depth={depth} {out}"));
+                ctx.emit(i, term, *depth >= 1000, &format!("deep {} {out}", LANGS[lang]));
+                continue;
+            }
             if let Some((lang, len, o)) = fuzz_results.get(&i) {
                 let term = format!("(CFuzz {lang} {len} {o})");
                 let shape =
@@ -1002,7 +1158,7 @@ fn main() {
                     ctx.note(format!("alias case {i}: watchdog timeout (60 s)"));
                     ctx.emit(i, "(CFuzz 0 0 4)".to_string(), false, "alias timeout");
                 }
-                _ => {
+                Some(Item::Crash(_)) | None => {
                     ctx.panicked();
                     ctx.note(format!(
                         "alias case {i}: the child process crashed (stack overflow / abort) while parsing or expanding; \
